@@ -12,7 +12,7 @@ TARGETS = ["theories/Properties/C09.vo"]
 PROPERTIES_FILE = "theories/Properties/C09.v"
 IMPL = "harness.props.c09_impl"
 TABLE_DEPS = ["sq_special_forms", "sq_builders", "sq_resolve_shape", "sq_expand_shape"]
-SHARD = 250
+SHARD = 500
 RULE = ("destructuring: every pattern shape of a structured family of depth <= 2 (thorough: 3) over the "
         "documented vocabulary (symbols, vector patterns with & and :as, map patterns with :keys/:strs/:syms, "
         "namespaced groups and elements, {pattern key} entries, :or, :as, kwargs rest) crossed with "
